@@ -6,9 +6,14 @@ every model.__dict__['_X'], driven through the real _evaluate / solve_t / solve.
 Model side: the real generated code is translated (fail-closed, harness/evalmodel.py) into the Coq AST of
 coq/Eval/Eval.v; Eval.eval_pass / Eval.solve_seq_M (= Solver.solve_t_M with ev := eval_pass) run inside Coq on PrimFloat
 and are compared bit for bit (values, status, iterations, outcome, hook events, per-pass access sequence)."""
+import atexit
 import copy
 import itertools
 import math
+import os
+import shutil
+import sys
+import tempfile
 
 import lib
 import evalmodel as em
@@ -37,7 +42,28 @@ ASSUMPTIONS = ['parser-built model without verbatim code; solve_t_before / solve
                't lies inside the span (-n <= t < n)']
 EXHAUSTIVE = {'quick': False, 'thorough': True}
 CASE_TIMEOUT = 30
-MAX_PASSES_K = 3
+MAX_PASSES_K = 3            # evaluation passes compared one by one (store before / after / exception / access sequence)
+MAX_PASSES_TABLE = 60       # passes whose exp / log / ** calls are recorded for the whole-call comparison
+
+# compiled Fortran engines (second engine of the property's quantifier) live in a per-run temporary directory
+IN_WORKER = os.path.basename(sys.argv[0] if sys.argv else '') == 'worker.py'
+SO_ROOT = os.path.join(tempfile.gettempdir(), 'verif_c04_so')
+SO_DIR = os.path.join(SO_ROOT, str(os.getppid() if IN_WORKER else os.getpid()))
+
+
+def _cleanup():
+    if not IN_WORKER:
+        shutil.rmtree(SO_DIR, ignore_errors=True)
+        try:
+            for d in os.listdir(SO_ROOT):
+                if d.isdigit() and not os.path.exists('/proc/%s' % d):
+                    shutil.rmtree(os.path.join(SO_ROOT, d), ignore_errors=True)
+            os.rmdir(SO_ROOT)
+        except OSError:
+            pass
+
+
+atexit.register(_cleanup)
 
 ENDO = ['Y', 'C', 'I']
 EXO = ['X', 'G', 'W']
@@ -249,6 +275,32 @@ def cases_for_program(rng, p, tier, heavy=True):
             if heavy and rng.random() < 0.15:
                 c['opts']['offset'] = rng.choice([-1, 1])
             cases.append(c)
+        # (d) the Fortran engine (frame / rejection / feasibility clauses; conditionals are not Fortran)
+        if heavy and n == lens[0] and ' if ' not in '\n'.join(p.lines):
+            for t in range(-n, n):
+                c = base_case(p, n, data, 'solve_t', t, max_iter=rng.choice([1, 2, 3]), failures='ignore', errors=rng.choice(['raise', 'raise', 'skip']))
+                c['engine'] = 'fortran'
+                cases.append(c)
+                pp = t if t >= 0 else t + n
+                u = rng.random()
+                if u < 0.25:
+                    c2 = copy.deepcopy(c)
+                    c2['opts']['offset'] = rng.choice([-1, 1, -pp - 1, n - pp])
+                    cases.append(c2)
+                elif u < 0.4:
+                    c2 = copy.deepcopy(c)
+                    c2['data'] = copy.deepcopy(data)
+                    c2['data'][p.eqs[0]['lhs'][0]][pp] = rng.choice(['nan', 'inf'])
+                    c2['opts']['errors'] = 'raise'
+                    cases.append(c2)
+                elif u < 0.5:
+                    c2 = copy.deepcopy(c)
+                    c2['opts']['min_iter'] = c2['opts']['max_iter'] + 1
+                    cases.append(c2)
+            for a, b in [(None, None), (0, None), (None, n - 1)]:
+                c = base_case(p, n, data, 'solve', 0, max_iter=2, failures='ignore', errors='raise')
+                c['start'], c['end'], c['engine'] = a, b, 'fortran'
+                cases.append(c)
     return cases
 
 
@@ -317,10 +369,68 @@ def gen(rng, tier):
 
 
 # =========================================================================== implementation side
+def impl_fortran(case):
+    """Second engine: the generated Fortran, compiled with gfortran and driven through the REAL FortranEngine methods
+    (harness/fortran_ctypes.py stands in for the f2py module).  Reads happen inside compiled code, so only the frame,
+    rejection and feasibility clauses are observed (oracle only; the Coq model is of the Python engine)."""
+    import numpy as np
+    import fsic
+    import fsic.fortran as FT
+    import fortran_ctypes as fc
+    try:
+        symbols = fsic.parse_model(case['script'])
+        Model = fsic.build_model(symbols, min_lags=case.get('min_lags', 0), min_leads=case.get('min_leads', 0))
+        text = FT.build_fortran_definition(symbols, min_lags=case.get('min_lags', 0), min_leads=case.get('min_leads', 0))
+    except Exception as e:
+        return {'skip': 'build:' + type(e).__name__}
+    try:
+        eng = fc.Cache(SO_DIR).engine(text)
+    except fc.CompileError:
+        return {'skip': 'fortran-compile: generated Fortran rejected by gfortran (C07\'s business)'}
+    names = list(Model.NAMES)
+
+    class F(FT.FortranEngine, Model):
+        ENGINE = eng
+    n = case['n']
+    span = ['p%d' % i for i in range(n)]
+    m = F(span)
+    for nm in names:
+        if nm in case['data']:
+            m.__dict__['_' + nm][:] = [lib.unhex(x) for x in case['data'][nm]]
+    m.__dict__['_status'][:] = case['status0']
+    m.__dict__['_iterations'][:] = case['iters0']
+    before = em.snapshot(m, names)
+    o = case['opts']
+    kw = dict(min_iter=o['min_iter'], max_iter=o['max_iter'], tol=lib.unhex(o['tol']), offset=o['offset'],
+              failures=o['failures'], errors=o['errors'])
+    try:
+        if case['entry'] == 'solve_t':
+            out = ['ret', [bool(m.solve_t(case['t'], **kw))]]
+        else:
+            skw = dict(kw)
+            if case['start'] is not None:
+                skw['start'] = span[case['start']]
+            if case['end'] is not None:
+                skw['end'] = span[case['end']]
+            labels, indexes, solved = m.solve(**skw)
+            out = ['ret', [bool(x) for x in solved], [int(i) for i in indexes], [str(x) for x in labels]]
+    except Exception as e:
+        c = e.__cause__
+        out = ['raise', type(e).__name__, type(c).__name__ if c is not None else None]
+    idx = {nm: i for i, nm in enumerate(names)}
+    return {'engine': 'fortran', 'names': names, 'lags': int(m.lags), 'leads': int(m.leads),
+            'endo': [idx[x] for x in m.endogenous], 'check': [idx[x] for x in m.check], 'prog': None, 'out': out,
+            'before': before, 'after': em.snapshot(m, names),
+            'status': [str(x) for x in np.asarray(m.__dict__['_status'])], 'iters': [int(x) for x in np.asarray(m.__dict__['_iterations'])],
+            'log': [], 'events': [], 'passes': [], 'npasses': 0, 'pass_logs_tail': []}
+
+
 def impl(case):
     import warnings
     import numpy as np
     import fsic
+    if case.get('engine') == 'fortran':
+        return impl_fortran(case)
     try:
         symbols = fsic.parse_model(case['script'])
         Model = fsic.build_model(symbols, min_lags=case.get('min_lags', 0), min_leads=case.get('min_leads', 0))
@@ -372,17 +482,25 @@ def impl(case):
     def canon(log):
         return [[a[0], idx[a[1]], a[2]] for a in log]
     passes = []
-    for rec in st['passes'][:MAX_PASSES_K]:
-        r = dict(rec)
-        r['log'] = canon(rec['log'])
-        r['table'] = em.mirror_table(prog, rec['t'], rec['before']) if em.uses_table(prog) else []
-        passes.append(r)
+    table_all = []
+    needs_table = em.uses_table(prog)
+    for j, rec in enumerate(st['passes'][:MAX_PASSES_TABLE]):
+        tab = em.mirror_table(prog, rec['t'], rec['before']) if needs_table else []
+        for e in tab:
+            if e not in table_all:
+                table_all.append(e)
+        if j < MAX_PASSES_K:
+            r = dict(rec)
+            r['log'] = canon(rec['log'])
+            r['table'] = tab
+            passes.append(r)
     return {
         'names': names, 'lags': int(m.lags), 'leads': int(m.leads), 'class_lags': int(Model.LAGS), 'class_leads': int(Model.LEADS),
         'endo': [idx[x] for x in m.endogenous], 'check': [idx[x] for x in m.check],
         'prog': prog, 'out': out, 'before': before, 'after': em.snapshot(m, names),
         'status': [str(x) for x in np.asarray(m.__dict__['_status'])], 'iters': [int(x) for x in np.asarray(m.__dict__['_iterations'])],
         'log': canon(st['log']), 'events': st['events'], 'passes': passes, 'npasses': len(st['passes']),
+        'table_all': table_all, 'table_complete': (not needs_table) or len(st['passes']) <= MAX_PASSES_TABLE,
         'pass_ts': [[r['t'], len(r['log'])] for r in st['passes']],
         'pass_logs_tail': [dict(t=r['t'], log=canon(r['log'])) for r in st['passes'][MAX_PASSES_K:]],
     }
@@ -419,19 +537,15 @@ def k_items(case, obs):
     items = []
     n = case['n']
     prog = em.c_prog(obs['prog'])
-    table = []
+    table = obs['table_all']
     for r in obs['passes']:
-        for e in r['table']:
-            if e not in table:
-                table.append(e)
         if any(not isinstance(a[2], int) or a[1] < 0 for a in r['log']):
             return None
         exc = 'None' if r['exc'] is None else '(Some %d)' % em.CAUSE_TAG.get(r['exc'], 99)
         items.append('(KP (mkP %s %s %s %s %s %s %s %s))' % (
             em.c_table(r['table']), prog, lib.cbool(r['catch']), lib.cZ(r['t']), em.c_vals(r['before']), em.c_vals(r['after']), exc,
             lib.clist(em.c_access(a, n) for a in r['log'])))
-    if case['entry'] in ('solve_t', 'solve') and obs['npasses'] <= MAX_PASSES_K:
-        # (longer runs would need oracle-table entries of passes that are not recorded; their passes are still compared above)
+    if case['entry'] in ('solve_t', 'solve') and obs['table_complete']:
         if case['entry'] == 'solve_t':
             ts = lib.clist([lib.cZ(case['t'])])
         elif case['start'] is None and case['end'] is None:
@@ -450,7 +564,7 @@ def k_items(case, obs):
 def correspond(cases, obs, tag, tier):
     items, owner, bad = [], [], []
     for i, (c, o) in enumerate(zip(cases, obs)):
-        if o.get('skip') or o.get('timeout'):
+        if o.get('skip') or o.get('timeout') or o.get('engine') == 'fortran':
             continue
         if c['opts']['errors'] not in sc.ERRMODES:
             continue
@@ -545,7 +659,12 @@ def oracle(case, obs):
                     return
                 srv = i if i >= 0 else i + n
                 k = i - t
-                if not (0 <= srv < n) or srv - p != k:
+                if not 0 <= srv < n:
+                    bad('read-out-of-span' if kind == 'R' else 'write-out-of-span',
+                        '%s of %s at requested index %d while solving t=%d on a %d-period span: outside the span (IndexError)'
+                        % ('read' if kind == 'R' else 'write', names[x], i, t, n))
+                    return
+                if srv - p != k:
                     bad('read-wrapped' if kind == 'R' else 'write-wrapped',
                         '%s of %s at requested index %d while solving t=%d (position %d of %d): served at position %d, i.e. %+d periods from t instead of %+d'
                         % ('read' if kind == 'R' else 'write', names[x], i, t, p, n, srv, srv - p, k))
@@ -556,26 +675,24 @@ def oracle(case, obs):
                         % ('read' if kind == 'R' else 'write', names[x], k, t))
                     return
     plogs = [dict(t=r['t'], log=r['log']) for r in obs['passes']] + obs['pass_logs_tail']
-
-    def solver_level_accesses(t, p, offset):
-        """accesses outside evaluation passes: get_check_values, the offset copy, status / iterations"""
-        # remove pass logs (contiguous slices) from the full log
-        for kind, x, i in obs['log']:
-            if not isinstance(i, int):
-                bad('solver-access-shape', 'unexpected index %r' % (i,))
-                return
+    fortran = obs.get('engine') == 'fortran'
     if case['entry'] == 'solve_t':
         t = case['t']
         p = _pos(t, n)
         unchanged = not changed and not st_changed
         rejected_upfront = out[0] == 'raise' and not obs['events']
+        if fortran:      # no hook events to go by: a raise that recorded no status at t is a rejection
+            rejected_upfront = out[0] == 'raise' and out[1] != 'NonConvergenceError' and p not in st_changed
         feasible = L <= p < n - Ld
         if o['min_iter'] > o['max_iter']:
             if out[:2] != ['raise', 'ValueError'] or not unchanged or obs['events']:
                 bad('min>max', 'min_iter > max_iter must raise ValueError and change nothing: got %s, unchanged=%s' % (out, unchanged))
             return fails
         if not feasible:
-            if out[:2] != ['raise', 'IndexError'] or obs['events']:
+            ok_reject = out[:2] == ['raise', 'IndexError'] or (fortran and out[:2] == ['raise', 'FortranEngineError'])
+            if fortran and out[:2] == ['raise', 'SolutionError'] and o['errors'] == 'raise' and any(_nonfinite(B[i][p]) for i in obs['check']):
+                ok_reject = True     # the Fortran wrapper tests for pre-existing non-finite values first: still a rejection
+            if not ok_reject or obs['events']:
                 bad('infeasible-period-served', 'solve_t(%d) on a %d-period span with lags=%d leads=%d must be rejected with IndexError; got %s after %d evaluation pass(es)'
                     % (t, n, L, Ld, out, obs['npasses']))
             if not unchanged:
@@ -586,8 +703,11 @@ def oracle(case, obs):
             if out[:2] != ['raise', 'IndexError'] or not unchanged or obs['events']:
                 bad('offset-out-of-span', 'offset outside the span must raise IndexError and change nothing: got %s, unchanged=%s' % (out, unchanged))
             return fails
+        if out[:2] == ['raise', 'IndexError']:
+            bad('feasible-period-rejected', 'solve_t(%d) on a %d-period span with lags=%d leads=%d (offset %d in span) raised IndexError although the period is feasible'
+                % (t, n, L, Ld, o['offset']))
         if rejected_upfront and not unchanged:
-            if o['offset'] != 0 and out[1] == 'SolutionError':
+            if o['offset'] != 0 and (out[1] == 'SolutionError' or (fortran and out[1] == 'FortranEngineError')):
                 bad('preexisting-nonfinite-after-offset|changed',
                     'solve_t(t, offset=k) rejected for pre-existing non-finite values AFTER copying period t+k into period t (values at t overwritten)')
             else:
@@ -630,8 +750,10 @@ def oracle(case, obs):
         if infeasible:
             bad('infeasible-period-served', 'solve(start=%s, end=%s) on a %d-period span with lags=%d leads=%d served position %d instead of rejecting it'
                 % (case['start'], case['end'], n, L, Ld, infeasible[0]))
-    elif infeasible and out[1] != 'IndexError' and not any(q for q in want if q < infeasible[0]):
+    elif infeasible and out[1] != 'IndexError' and not (fortran and out[1] == 'FortranEngineError') and not any(q for q in want if q < infeasible[0]):
         bad('infeasible-period-served', 'solve() starting at infeasible position %d raised %s, expected IndexError' % (infeasible[0], out[1]))
+    elif not infeasible and out[1] == 'IndexError' and (o['offset'] == 0 or all(0 <= q + o['offset'] < n for q in want)):
+        bad('feasible-period-rejected', 'solve(start=%s, end=%s) over the feasible positions %s raised IndexError' % (case['start'], case['end'], want))
     visited = [q for q in want if not infeasible or q < infeasible[0]] if infeasible else want
     allowed = {(i, q + k) for q in visited for i, ks in lhs.items() for k in ks}
     if o['offset'] != 0:
@@ -652,7 +774,7 @@ def oracle(case, obs):
 def nontrivial(case, obs):
     if obs.get('skip') or obs.get('timeout'):
         return False
-    return obs['npasses'] >= 1 or obs['out'][0] == 'raise'
+    return obs['npasses'] >= 1 or obs['out'][0] == 'raise' or (obs.get('engine') == 'fortran' and obs['before'] != obs['after'])
 
 
 def bucket(case, obs):
@@ -668,7 +790,7 @@ def bucket(case, obs):
         extra = '/neg' if case['t'] < 0 else '/pos'
         extra += '/infeasible' if not obs['lags'] <= p < case['n'] - obs['leads'] else ''
         extra += '/offset' if case['opts']['offset'] else ''
-    return '%s%s/%s' % (case['entry'], extra, r)
+    return '%s%s%s/%s' % ('fortran:' if obs.get('engine') == 'fortran' else '', case['entry'], extra, r)
 
 
 def shrink_candidates(case):
